@@ -80,6 +80,10 @@ def main(argv=None):
     t0 = time.time()
     scratch = None
     try:
+        # txtorcon reports listener errors etc. through twisted's log; without an observer twisted
+        # prints them to stderr.  Checks that care install their own observer (harness.LogCapture).
+        from twisted.python import log as twlog
+        twlog.startLoggingWithObserver(lambda ev: None, setStdout=False)
         _check_repo_import()
         # every temp file txtorcon or the harness creates goes under one scratch dir
         scratch = _scratch()
